@@ -98,9 +98,9 @@ impl SOp {
             SOp::BufNew(n) => format!("BN{}", size(n)),
             SOp::BufNext(k) => format!("BX{}", num(k)),
             SOp::BufDrop => "BD".into(),
-            SOp::ForEach(n) => format!("FE{}", num(n)),
-            SOp::EnumForEach(n) => format!("EF{}", num(n)),
-            SOp::Fold(n) => format!("FO{}", num(n)),
+            SOp::ForEach(n) => format!("FE{}", size(n)),
+            SOp::EnumForEach(n) => format!("EF{}", size(n)),
+            SOp::Fold(n) => format!("FO{}", size(n)),
             SOp::Skip => "S".into(),
             SOp::Len => "L".into(),
             SOp::HasMore => "H".into(),
@@ -109,7 +109,7 @@ impl SOp {
             SOp::Sel(j) => format!("SEL{j}"),
             SOp::Get(i) => format!("GET{}", num(i)),
             SOp::FetchOne => "F1".into(),
-            SOp::FetchN(n) => format!("FN{}", num(n)),
+            SOp::FetchN(n) => format!("FN{}", size(n)),
             SOp::Progress(n) => format!("PR{}", num(n)),
             SOp::EarlyExit => "EE".into(),
             SOp::CtrStore(v) => format!("CS{}", num(v)),
